@@ -856,6 +856,7 @@ fn emit_fn(
     let mut prologue: Vec<Stmt> = Vec::new();
     let mut argn = 0;
     let mut mut_self = false;
+    let mut ghost_params: Vec<String> = Vec::new();
     for a in sig.inputs.iter_mut() {
         match a {
             FnArg::Receiver(r) => {
@@ -879,6 +880,13 @@ fn emit_fn(
             }
             FnArg::Typed(pt) => {
                 rw.visit_type_mut(&mut pt.ty);
+                // ghost snapshot of every by-value / shared-reference parameter, so that loop clauses and hints can name the
+                // argument even if the body shadows the parameter's name
+                if let Pat::Ident(pi) = &*pt.pat {
+                    if !matches!(&*pt.ty, Type::Reference(r) if r.mutability.is_some()) {
+                        ghost_params.push(pi.ident.to_string());
+                    }
+                }
                 match &mut *pt.pat {
                     Pat::Ident(pi) if d.mutparams.contains(&pi.ident.to_string()) && pi.mutability.is_none() => {
                         let id = pi.ident.clone();
@@ -1049,6 +1057,11 @@ fn emit_fn(
     }
     body.pop();
 
+    if !d.trusted {
+        for g in ghost_params.iter().rev() {
+            body.insert(0, format!("    let ghost __p_{g} = {g}; /*vxparam*/"));
+        }
+    }
     // R27: lock-guard scope markers -> ghost monitor
     for g in &d.guards {
         body.insert(0, format!("    let ghost mut vx_guard_{g}: bool = false; /*vxguard*/"));
@@ -1270,6 +1283,7 @@ fn emit_fn(
         }
         if d.noisolation {
             target.push("#[verifier::loop_isolation(false)]".into());
+            target.push("#[verifier::allow_complex_invariants]".into());
         }
         let nm = if canary { format!("{}__canary", name) } else { name.to_string() };
         for l in sig_s.replace("@@NAME@@", &nm).split('\n') {
@@ -1280,6 +1294,12 @@ fn emit_fn(
             // vacuity canary: the same function must NOT be able to prove `false` at its exits
             let has_ens = clauses.iter().any(|c| c.trim_start().starts_with("ensures"));
             // ensure a trailing comma on the last non-empty clause line
+            // a trailing `decreases` clause stays last: the canary goes at the end of the `ensures` list
+            let dec_at = clauses.iter().position(|c| c.trim_start().starts_with("decreases"));
+            let tail: Vec<String> = match dec_at {
+                Some(p) => clauses.split_off(p),
+                None => Vec::new(),
+            };
             if has_ens {
                 if let Some(last) = clauses.iter_mut().rev().find(|c| !c.trim().is_empty() && !c.trim_start().starts_with("//")) {
                     let (code, comment) = match last.find("//") {
@@ -1293,6 +1313,7 @@ fn emit_fn(
             } else {
                 clauses.push("    ensures false, // [canary]".into());
             }
+            clauses.extend(tail);
         }
         for c in &clauses {
             target.push(c.clone());
